@@ -10,6 +10,8 @@ TK  == Len(Hdr.lv)
 \* target curve E and the isogenous curve E' of the simplified SWU map
 CE  == [kind |-> "sw", F |-> TF, K |-> TK, a |-> Hdr.a, b |-> Hdr.b, r |-> Hdr.r, h |-> Hdr.h]
 CI  == [kind |-> "sw", F |-> TF, K |-> TK, a |-> Hdr.iso_a, b |-> Hdr.iso_b, r |-> Hdr.r, h |-> Hdr.h]
+\* twisted Edwards target of an Elligator 2 suite
+CT  == [kind |-> "te", F |-> TF, K |-> TK, a |-> Hdr.a, d |-> (IF "d" \in DOMAIN Hdr THEN Hdr.d ELSE Hdr.a), r |-> Hdr.r, h |-> Hdr.h]
 M   == IF TK = 0 THEN 1 ELSE TExtDeg(TF, TK)
 Has(e, f) == f \in DOMAIN e
 
@@ -19,6 +21,12 @@ Check(e) ==
       [] e.op = "map_swu" -> SswuOK(CI, Hdr.zeta, e.u, e.ret)
       [] e.op = "map_wb" -> /\ SswuOK(CI, Hdr.zeta, e.u, e.q)
                             /\ e.ret = IsoApply(CE, Hdr.iso, e.q) /\ OnCurve(CE, e.ret)
+      [] e.op = "map_ell2" -> Ell2OK(CT, Hdr.J, Hdr.K, Hdr.Z, e.u, e.ret) /\ OnCurve(CT, e.ret)
+      [] e.op = "hash_to_curve_ell2" ->        \* the two field elements are taken as logged (hash_to_field is checked by its own events)
+            /\ Ell2OK(CT, Hdr.J, Hdr.K, Hdr.Z, e.u[1], e.q[1]) /\ Ell2OK(CT, Hdr.J, Hdr.K, Hdr.Z, e.u[2], e.q[2])
+            /\ OnCurve(CT, e.q[1]) /\ OnCurve(CT, e.q[2])
+            /\ e.ret = PMul(CT, Hdr.heff, PAdd(CT, e.q[1], e.q[2]))
+            /\ OnCurve(CT, e.ret) /\ PMul(CT, CT.r, e.ret) = Identity(CT)
       [] e.op = "hash_to_curve" ->
             /\ HashToField(Hdr.hash, Hdr.p, M, Hdr.k, e.msg, e.dst, 2) = e.u
             /\ SswuOK(CI, Hdr.zeta, e.u[1], e.q[1]) /\ SswuOK(CI, Hdr.zeta, e.u[2], e.q[2])
